@@ -14,7 +14,7 @@ SPEC = {
                    "23% valid reports (0..3 approved programs, counters, stacks with frames, X over denormal..1.8e308 and "
                    "negative), 7% kind confusion (one added item of an otherwise valid report: a stack name used as counter, a counter "
                    "used as stack, a counter/stack of the other program, an expansion prefix without bucket, a bucket of another "
-                   "counter, an approved counter name + newline + free text as a plain counter, a whole stack record filed under "
+                   "counter, the configuration's collapsed spelling ('single:{only}', 'go/build/flag:{buildmode}') or a piece of it, an approved counter name + newline + free text as a plain counter, a whole stack record filed under "
                    "Counters, stack names that contain an approved name only after the first newline or before CR/tab/space), "
                    "invalid week (28 hostile strings: '../x', '2024-1-01', '2024-01-01/..', 11 characters, NUL, "
                    "non-UTF-8, paths into the neighbouring bucket), config not semver, X zero in 8 spellings (0, -0, 0e5, "
@@ -66,8 +66,9 @@ SPEC = {
         "result (error or report) to the model; 'is a JSON report' means exactly that (DESIGN.md section 9)",
         "JSON round trip (premise of C12_stored_decodes_same): Unmarshal(Marshal(r)+newline) = r for reports obtained by "
         "Unmarshal; the suite checks it on every stored object with reflect.DeepEqual",
-        "semver.IsValid and HasCounter/HasStack/... : answers of the real library / membership in the expansion computed "
-        "by the real config.Expand, supplied per case",
+        "semver.IsValid: answer of the real library, supplied per case; the approved counter set is computed by the MODEL "
+        "(Model/Endpoint.expand, theorems C12_expand_plain / C12_expand_buckets) from the raw configuration the harness wrote - "
+        "not taken from internal/config",
         "the %g rendering of a finite non-zero float is a non-empty string over [0-9eE+-.] (checked on every decoded X "
         "and on 64 random floats per render case)",
         "time.Parse(DateOnly) = Lib/Calendar.parse_date (compared through the status on 28 hostile and 6 valid weeks)",
